@@ -31,6 +31,13 @@ type Op struct {
 	// RelTTL > 0: the operation stores etime = now + RelTTL (ms).
 	RelTTL []int64
 	Write  bool // may change the database
+	// Post runs after a DB-level step: operations taking a Go map learn the
+	// iteration order the implementation happened to use from the row ids it
+	// produced, and pass it to the model as an oracle input.
+	Post func(x *Exec, op *Op)
+	// MultiMap marks a map argument with more than one entry (only generated
+	// at DB level, where Post can recover the order).
+	MultiMap bool
 }
 
 // Step is a DB-level call or a caller-managed transaction.
@@ -378,6 +385,9 @@ func (x *Exec) RunStep(st *Step) (StepTrace, error) {
 		}
 		results = append(results, res)
 		ttls = append(ttls, op.RelTTL...)
+		if op.Post != nil {
+			op.Post(x, op)
+		}
 	} else {
 		_ = x.DB.Update(func(tx *redka.Tx) error {
 			r := verifhook.Tx(tx)
